@@ -148,7 +148,11 @@ impl Report {
     }
     /// `signature` is the class used to match known findings.
     pub fn oracle_failure(&mut self, signature: &str, what: &str, case: Value) {
-        if self.oracle_failures.len() < 200 {
+        // keep a few examples of every signature (a flood of one — e.g. a known finding — must not
+        // crowd out another)
+        let same = self.oracle_failures.iter().filter(|f| f["signature"] == signature).count();
+        *self.distribution.entry(format!("oracle_failures_total")).or_insert(0) += 1;
+        if same < 4 && self.oracle_failures.len() < 4000 {
             self.oracle_failures
                 .push(json!({"signature": signature, "what": what, "case": case}));
         }
